@@ -94,3 +94,13 @@ RESERVED_REGS = {
     "_MIPS32_ELF": {"t8", "t9", "sp", "gp", "fp", "ra", "k0", "k1", "at", "zero"},
     "_X86_64_ELF": {"rsp", "rbp"}, "_X86_64_PE": {"rsp", "rbp"}, "_IA32_PE": {"esp", "ebp"},
 }
+
+# LLVM MC opcode names of the indirect forms of the native near call, per ISA
+# (register operand / memory operand). A table without them classifies such a
+# call as direct. Reference: LLVM X86InstrControl.td, AArch64InstrInfo.td, MipsInstrInfo.td.
+INDIRECT_CALL_REQUIRED = {
+    "IA32": {"CALL32r", "CALL32m"},
+    "X64": {"CALL64r", "CALL64m"},
+    "ARM64": {"BLR"},
+    "MIPS32": {"JALR"},
+}
